@@ -3,9 +3,11 @@ package main
 import (
 	"bytes"
 	"fmt"
+	"io"
 	"sort"
 	"strconv"
 	"strings"
+	"testing/iotest"
 
 	"github.com/brutella/hc/util"
 )
@@ -48,7 +50,12 @@ func runTLV(id string, toks []string) (res string) {
 			return out + " reparse=err"
 		}
 		out += " reparse=ok"
-		return out + gets(c, tags, "a") + gets(c2, tags, "b")
+		out += gets(c, tags, "a") + gets(c2, tags, "b")
+		// ... and when the serialised bytes arrive one byte at a time
+		if c3, err3 := util.NewTLV8ContainerFromReader(iotest.OneByteReader(bytes.NewReader(ser))); err3 != nil || gets(c3, tags, "b") != gets(c2, tags, "b") {
+			out += " piecewise=one-byte-differs"
+		}
+		return out
 	case "parse":
 		in := unhex(toks[1])
 		c, err := util.NewTLV8ContainerFromReader(bytes.NewBuffer(in))
@@ -59,7 +66,15 @@ func runTLV(id string, toks []string) (res string) {
 		for i := 0; i < len(in) && i < 64; i++ {
 			tags[int(in[i])] = true
 		}
-		return "parse=ok ser=" + hx(c.BytesBuffer().Bytes()) + gets(c, tags, "b")
+		res := "parse=ok ser=" + hx(c.BytesBuffer().Bytes()) + gets(c, tags, "b")
+		// the same bytes arriving in pieces (a request body comes in segments) parse to the same container
+		for name, r := range map[string]io.Reader{"one-byte": iotest.OneByteReader(bytes.NewReader(in)), "half": iotest.HalfReader(bytes.NewReader(in))} {
+			c2, err2 := util.NewTLV8ContainerFromReader(r)
+			if err2 != nil || "parse=ok ser="+hx(c2.BytesBuffer().Bytes())+gets(c2, tags, "b") != res {
+				return res + " piecewise=" + name + "-differs"
+			}
+		}
+		return res
 	}
 	return "badcase"
 }
